@@ -269,7 +269,17 @@ def corpus():
     pairtri = {"bundles": [copy.deepcopy(_gd.DIFF), tri], "top": "Top", "modules": [{"name": "Top", "sigs": [{"n": "g", "w": 1, "port": True, "dir": "none"}],
                "bundles": [{"n": "t3", "of": "Tri", "port": False}],
                "insts": [{"n": "pr", "of": copy.deepcopy(_gd.LEAVES[3]), "pair": ["p", "n"], "conns": [["p", {"k": "bundle", "n": "t3"}], ["n", {"k": "sig", "n": "g"}]]}]}]}
-    more = hidden + [{"class": "noconn_referenced", "site": "corpus:reference-in-anonymous-bundle", "design": ncanon},
+    # an anonymous bundle whose member is a bundle *instance* of another type than the port's member: it brings a member of its own
+    diff = {"sigs": [lf("p", 1), lf("n", 1)], "subs": []}
+    bsub = {"name": "BS", "tree": {"sigs": [lf("c", 1)], "subs": [{"n": "d", "flip": False, "role": None, "of": diff}]}}
+    diff3 = {"name": "Diff3", "tree": {"sigs": [lf("p", 1), lf("n", 1), lf("z", 1)], "subs": []}}
+    hasbs = {"name": "HasBS", "sigs": [], "bundles": [{"n": "bp", "of": "BS", "port": True}],
+             "insts": [{"n": "r1", "of": copy.deepcopy(r), "conns": [["p", {"k": "bref", "root": "bp", "path": ["d", "p"]}], ["n", {"k": "bref", "root": "bp", "path": ["d", "n"]}]]},
+                       {"n": "r2", "of": copy.deepcopy(r), "conns": [["p", {"k": "bref", "root": "bp", "path": ["c"]}], ["n", {"k": "bref", "root": "bp", "path": ["c"]}]]}]}
+    anoninst = {"bundles": [bsub, diff3], "top": "Top", "modules": [hasbs, {"name": "Top", "sigs": [{"n": "cs", "w": 1, "port": True, "dir": "none"}],
+                "bundles": [{"n": "d3", "of": "Diff3", "port": False}],
+                "insts": [{"n": "i", "of": {"k": "module", "name": "HasBS"}, "conns": [["bp", {"k": "anon", "fields": [["d", {"k": "bundle", "n": "d3"}], ["c", {"k": "sig", "n": "cs"}]]}]]}]}]}
+    more = hidden + [{"class": "bad_member", "site": "corpus:bundle-instance-of-wider-type-in-anonymous-bundle", "design": anoninst}] + [{"class": "noconn_referenced", "site": "corpus:reference-in-anonymous-bundle", "design": ncanon},
                      {"class": "bad_member", "site": "corpus:pair-on-wider-bundle-type", "design": pairtri}]
     return more + [{"class": "missing_connection", "site": "corpus", "design": d1}, {"class": "width_mismatch", "site": "corpus", "design": d2},
             {"class": "bad_index", "site": "corpus", "design": d3}, {"class": "bad_index", "site": "corpus:int-at-width", "design": d4}] + extras
